@@ -196,7 +196,12 @@ theorem client_unpacks_packed (reps : List Bytes) (hne : reps ≠ [])
   have hn : reps.length < 65536 := by unfold offOf at hsz; omega
   unfold unpackMulti
   simp only []
-  rw [packMulti_count reps hn, packMulti_offs reps hsz]
+  have hlen := packMulti_length reps
+  have hge : 2 + 2 * reps.length ≤ offOf reps reps.length := by unfold offOf; omega
+  have htbl : min (2 * leVal ((packMulti reps).take 2)) ((packMulti reps).length - 2) = 2 * reps.length := by
+    rw [packMulti_count reps hn, hlen]; omega
+  rw [htbl, if_neg (by omega), Nat.mul_div_cancel_left _ (by omega : 0 < 2)]
+  rw [packMulti_offs reps hsz]
   apply List.ext_getElem
   · simp
   · intro i h1 h2
